@@ -788,5 +788,5 @@ func c02R7(p *core.Program, r *core.Report) {
 		}
 	}
 	r.Count("reference_asset_uuid_pairs", n)
-	r.Require("reference_asset_uuid_pairs", n, 6)
+	r.Require("reference_asset_uuid_pairs", n, 4)
 }
